@@ -521,6 +521,35 @@ def _no_semantic_directives(col, rule="C20.R10"):
             "no Cython directive replaces Python's semantics of division, indexing or overflow in the compiled reference classes", str(found[:3]))
 
 
+def _no_exception_dropping_c_functions(col, rule="C20.R10"):
+    """A C-level function whose signature cannot carry an exception (`@cython.exceptval(check=False)`, `noexcept`, a `cfunc` returning
+    `cython.void` or a C scalar without an exception value) prints 'Exception ignored in ...' and *returns normally* when its body
+    raises -- in the compiled build only; the pure-Python build propagates."""
+    m = col.repo.module("refs")
+    found = []
+    for n in ast.walk(m.tree):
+        if not isinstance(n, (ast.FunctionDef, ast.AsyncFunctionDef)):
+            continue
+        names = []
+        for d in n.decorator_list:
+            nm = (A.dotted(d.func) if isinstance(d, ast.Call) else A.dotted(d)) or ""
+            names.append((nm.split(".")[-1], d))
+        short = [x for x, _ in names]
+        for nm, d in names:
+            if nm == "exceptval":
+                chk = [kw for kw in d.keywords if kw.arg == "check"] if isinstance(d, ast.Call) else []
+                if any(isinstance(kw.value, ast.Constant) and kw.value.value is False for kw in chk):
+                    found.append((m.loc(n), f"{n.name}: @cython.exceptval(check=False)"))
+            if nm in ("noexcept", "nogil"):
+                found.append((m.loc(n), f"{n.name}: @cython.{nm}"))
+        ret = A.dotted(n.returns) if n.returns is not None else None
+        if ("cfunc" in short or "ccall" in short) and ret and ret.split(".")[-1] in ("void", "int", "long", "double", "float", "bint", "Py_ssize_t", "Py_hash_t") \
+                and "exceptval" not in short:
+            found.append((m.loc(n), f"{n.name}: C function returning {ret} without an exception value"))
+    col.add(rule, "refs#no-c-function-that-drops-exceptions", not found, found[0][0] if found else m.rel,
+            "no function of the reference module is compiled to a C signature that cannot propagate an exception", str(found[:3]), positive=bool(found))
+
+
 def _copy_gathers_before_loading(col, rule="C20.R5"):
     """copy_expr_from walks the source's tasks in a schedule order that comes from set iteration (hash seed, hash width).  The definitions are
     gathered completely *before* any of them is registered: handing the generator itself to load() interleaves the walk with the
@@ -602,6 +631,8 @@ def check(col: Collector):
         _dump_in_registration_order(col)
     with col.rule():
         _no_semantic_directives(col)
+    with col.rule():
+        _no_exception_dropping_c_functions(col)
     with col.rule():
         _copy_gathers_before_loading(col)
     with col.rule():
